@@ -37,7 +37,7 @@ fn listing(name: &str) -> Option<Vec<String>> {
     }
 }
 fn cfg_of(d: &FnDesc) -> Cfg {
-    Cfg { flavour: if d.is_async { Flavour::Async } else if d.scope_thread { Flavour::Thread } else { Flavour::Global }, policy: Policy::from_name(d.policy).unwrap(), limit: d.limit, ttl: d.ttl, max_memory: d.max_memory, fw: d.fw }
+    Cfg { flavour: if d.is_async { Flavour::Async } else if d.scope_thread { Flavour::Thread } else { Flavour::Global }, policy: Policy::from_name(d.policy).unwrap(), limit: d.limit, ttl: d.ttl, max_memory: d.max_memory, fw: d.fw, age_exact: false }
 }
 
 #[derive(Clone, Debug)]
